@@ -189,7 +189,8 @@ class SetItem(Operation):
                     mask = np.zeros_like(sub_sel)
                     mask[first_inds] = 1
                     mask = mask.reshape(grad_sel.shape)
-                    grad_sel *= mask
+                    # (assigned, not multiplied: a non-finite gradient must not leave nan behind)
+                    grad_sel[mask == 0] = 0
 
             # handle the edge case of "projecting down" on setitem. E.g:
             # x = Tensor([0, 1, 2])
